@@ -6,7 +6,7 @@ import subprocess
 
 HERE = os.path.dirname(os.path.dirname(os.path.abspath(__file__)))
 
-NETS = "; plus generic syntax-tree nets over the modules the property is anchored in (no parameter / plainly assigned local that nothing reads, no loop variable read after its loop, existential array rejections, no public accessor returning private storage, an element of it, or a module-level mutable table directly, no cached public member returning a mutable object), each with a frozen exception table"
+NETS = "; plus generic syntax-tree nets over the modules the property is anchored in (no parameter / plainly assigned local that nothing reads, no loop variable read after its loop, existential array rejections, no public accessor returning private storage, an element of it, or a module-level mutable table directly, no cached public member returning a mutable object, no array-like parameter stored as given), each with a frozen exception table"
 TRUSTED = (
     "Trusted base: stdlib ast parser; pstatic's light type inference/call resolution (unresolved call sites are counted in the evidence); "
     "spec tables under /verif/tables written from the property statement. Only explicit constructs of the source are analysed: nothing of /repo is imported or run."
